@@ -16,7 +16,9 @@ from ..render import render
 
 PID = "C14"
 CLI = os.path.join(BUILD, "bin", "dwgrep")
-RULE = ("exhaustive: all 65 793 byte strings of length <= 2; integer-literal shapes (sign x prefix x 0..22 digits x "
+RULE = ("size: ~150 shapes whose nesting depth or length grows without bound (nested %( %) / ( ) / [ ] / { } / ?( ) / if, unclosed "
+        "and unopened brackets, long concatenations / alternatives / let chains / postfix operators / string continuations / "
+        "directives, megabyte literals, words and comments) at sizes from 3 to 10^6; exhaustive: all 65 793 byte strings of length <= 2; integer-literal shapes (sign x prefix x 0..22 digits x "
         "boundary values +-1 x bad digits); for ~300 grammar-derived programs and the tests.sh corpus every character "
         "prefix, single-character deletion, adjacent swap, NUL insertion, and token deletion/duplication/swap; random "
         "byte soup; run-time failure at every pull index k; the same texts through zw_query_parse (NUL-terminated) "
@@ -270,9 +272,153 @@ def work_cli(task):
     return ev
 
 
+# ---------------------------------------------------------------- size: deep and long inputs
+
+def nest(opening, core, closing, n):
+    return opening * n + core + closing * n
+
+
+def splice_nest(n):
+    s = "1"
+    for _ in range(n):
+        s = '"%( ' + s + ' %)"'
+    return s
+
+
+def scale_inputs(tier):
+    """(name, text): shapes whose depth or length grows without bound while staying a few kB..MB of text."""
+    out = []
+    deep = [3, 30, 99, 100, 101, 400, 1500, 3000, 8000] + ([20000, 60000] if tier == "thorough" else [])
+    for n in deep:
+        out.append(("nested-splices:%d" % n, splice_nest(n)))
+    for n in (50, 1000, 3000, 6000, 30000):
+        out.append(("nested-parens:%d" % n, nest("(", "1", ")", n)))
+        out.append(("nested-captures:%d" % n, nest("[", "1", "]", n)))
+        out.append(("nested-blocks:%d" % n, nest("{", "1", "}", n)))
+        out.append(("nested-sub:%d" % n, "1 " + nest("?(", "", ")", n)))
+        out.append(("nested-neg:%d" % n, "1 " + nest("!(", "", ")", n)))
+        out.append(("unclosed-parens:%d" % n, "(" * n))
+        out.append(("unopened-parens:%d" % n, "1" + ")" * n))
+        out.append(("nested-if:%d" % n, "if 1 then " * min(n, 3000) + "1" + " else 2" * min(n, 3000)))
+    for n in (100, 4000, 6000, 50000):
+        out.append(("long-cat:%d" % n, "1 drop " * n + "1"))
+        out.append(("long-alt:%d" % n, ", ".join(["1"] * n)))
+        out.append(("long-or:%d" % n, " || ".join(["1"] * n)))
+        out.append(("long-let:%d" % n, "".join("let A%d := 1; " % i for i in range(n)) + "1"))
+        out.append(("postfix-opt:%d" % n, "1" + "?" * n + " drop 1 ?0"))
+        out.append(("postfix-star:%d" % n, "1 (drop 1)" + "*" * n))
+        out.append(("continuation:%d" % n, '"a"' + '\\ "b"' * n + " length"))
+        out.append(("percent-escapes:%d" % n, '"' + "%%" * n + '" length'))
+    for n in (10, 500, 3000):
+        out.append(("format-directives:%d" % n, '"' + "%( 7 %)" * n + '" length'))
+        out.append(("format-%%s:%d" % n, "1 " + '"' + "%s" * n + '"'))
+    for n in (1000, 1000000):
+        out.append(("long-string:%d" % n, '"' + "a" * n + '" length'))
+        out.append(("long-escapes:%d" % n, '"' + "\\x41" * (n // 4) + '" length'))
+        out.append(("long-integer:%d" % n, "1" * n))
+        out.append(("long-word:%d" % n, "A" * n))
+        out.append(("long-comment:%d" % n, "1 #" + "x" * n))
+        out.append(("long-c-comment:%d" % n, "1 /*" + "x" * n + "*/"))
+        out.append(("unterminated-string:%d" % n, '"' + "a" * n))
+        out.append(("unterminated-comment:%d" % n, "1 /*" + "x" * n))
+    return out
+
+
+# Known finding (not repaired): the pull engine recurses through the chain of operators, and the one
+# chain whose length the parser does not bound is that of the directives of a format string.
+KNOWN_FMT = ("format-string-with-20000-directives", '"' + "%( 7 %)" * 20000 + '" length')
+
+
+RECURSIVE = ("nested-", "unclosed-", "unopened-", "long-cat", "long-alt", "long-or", "long-let", "postfix-", "format-")
+PLAIN_CLI = os.path.join(BUILD, "bin", "dwgrep-plain")
+
+
+def run_plain(text):
+    """The production-like build of the command line tool (no sanitizers: their larger stack frames
+    would overflow several times earlier than the real thing).  Returns (status, stderr tail)."""
+    qf = os.path.join(BUILD, "run", "c14-scale-%d.zw" % os.getpid())
+    os.makedirs(os.path.dirname(qf), exist_ok=True)
+    with open(qf, "wb") as f:
+        f.write(text)
+    try:
+        p = subprocess.run([PLAIN_CLI, "-c", "-f", qf], stdout=subprocess.PIPE, stderr=subprocess.PIPE, timeout=120)
+        err = p.stderr.decode("latin-1")
+        return p.returncode, err[:200] + (" ... " + err[-200:] if len(err) > 400 else err[200:])
+    finally:
+        os.unlink(qf)
+
+
+def work_scale(task):
+    tier, lo, hi = task
+    ev = Evidence()
+    drv = Driver(timeout=120)
+    try:
+        for name, text in scale_inputs(tier)[lo:hi]:
+            t = text.encode()
+            shape, size = name.split(":")[0], int(name.split(":")[1])
+            # (1) production-like build: every size
+            try:
+                rc, err = run_plain(t)
+            except subprocess.TimeoutExpired:
+                ev.inconc("timeout on " + shape)
+                continue
+            ev.case(key=("scale", name), nontrivial=True)
+            ev.label("scale:" + ("accepted" if rc in (0, 1) else "reject" if rc == 2 else "crash"))
+            if rc not in (0, 1, 2):
+                ev.violations.append({"property": PID, "shape": name, "input_len": len(t), "query": text[:200] + (" ..." if len(text) > 200 else ""),
+                                      "generator": name, "reason": "dwgrep (built without sanitizers) died with status %d on %s (%d bytes) %s" % (rc, name, len(t), err[-200:]),
+                                      "signature": "C14:scale:" + shape})
+                continue
+            if rc == 2 and "dwgrep:" not in err:
+                ev.violations.append({"property": PID, "shape": name, "generator": name, "reason": "exit status 2 without a dwgrep: message on stderr for " + name,
+                                      "signature": "C14:scale-msg:" + shape})
+            # (2) instrumented driver through the API: memory errors.  Shapes that make the parser or
+            # builder recurse are limited to moderate depth there.
+            if shape.startswith(RECURSIVE) and size > 400:
+                continue
+            try:
+                r = drv.run(t, flags=8, limit=3, steps=3000000)
+            except DriverCrash as e:
+                ev.violations.append({"property": PID, "shape": name, "input_len": len(t), "query": text[:200] + (" ..." if len(text) > 200 else ""),
+                                      "generator": name, "reason": "crash on %s (%d bytes): %s" % (name, len(t), e.report[-1500:]),
+                                      "signature": "C14:scale-api:" + shape})
+                continue
+            except DriverTimeout:
+                ev.inconc("watchdog on " + shape)
+                continue
+            ev.label("scale-api")
+            if "cerror" in r and not r["cerror"]:
+                ev.violations.append({"property": PID, "shape": name, "reason": "empty error message for " + name, "signature": "C14:scale-msg:" + name})
+            if ("cerror" in r) != (rc == 2) and "error" not in r:
+                ev.violations.append({"property": PID, "shape": name, "generator": name,
+                                      "reason": "the API %s %s but the command line tool exits with %d" % ("rejects" if "cerror" in r else "accepts", name, rc),
+                                      "signature": "C14:scale-diff:" + shape})
+            if len(ev.samples) < 3 and "cerror" in r:
+                ev.sample({"shape": name, "bytes": len(t), "rejected_with": r["cerror"][:80]})
+    finally:
+        drv.kill()
+    return ev
+
+
+def known_findings(ev):
+    from ..harness import load_known
+    for k in load_known():
+        if k.get("property") == PID and k.get("status") == "known" and k.get("signature") == KNOWN_FMT[0]:
+            try:
+                rc, err = run_plain(KNOWN_FMT[1].encode())
+            except subprocess.TimeoutExpired:
+                continue
+            if rc not in (0, 1, 2):
+                ev.known_hits[k["signature"]] = k["what"]
+
+
 def main(tier, seed):
     t0 = time.time()
     ev = Evidence()
+    nscale = len(scale_inputs(tier))
+    ev.merge(run_pool(work_scale, [(tier, lo, lo + 6) for lo in range(0, nscale, 6)]))
+    ev.extra["scale_shapes"] = nscale
+    known_findings(ev)
     total = 1 + 256 + 65536
     step = total // 48 + 1
     ev.merge(run_pool(work_short, [(lo, min(lo + step, total)) for lo in range(0, total, step)]))
@@ -312,7 +458,8 @@ def main(tier, seed):
                   health={"rejections by several rules seen": sum(1 for k in ev.labels if k.startswith("reject:")) >= 5,
                           "accepted inputs seen": ev.labels.get("accepted", 0) > 100,
                           "runtime failures seen": ev.labels.get("runtime-failure-at-pull", 0) > 0,
-                          "fuzzer ran": res["stats"].get("execs", 0) > 0})
+                          "fuzzer ran": res["stats"].get("execs", 0) > 0,
+                          "deep/long shapes both accepted and rejected": ev.labels.get("scale:accepted", 0) > 20 and ev.labels.get("scale:reject", 0) > 20})
 
 
 def replay(path):
@@ -322,6 +469,22 @@ def replay(path):
         fails, rep = reproduce(rec["artifact"], "/repo/tests/a1.out")
         print(rep)
         return 1 if fails else 0
+    if rec.get("generator"):
+        text = dict(scale_inputs("thorough"))[rec["generator"]]
+        rc, err = run_plain(text.encode())
+        print("plain build: exit status", rc, err[-200:])
+        if rc not in (0, 1, 2):
+            return 1
+        drv = Driver(timeout=120)
+        try:
+            r = drv.run(text.encode(), flags=8, limit=3, steps=3000000)
+            print({k: v for k, v in r.items() if k != "stderr"})
+            return 0
+        except DriverCrash as e:
+            print("crash: " + e.report[-1500:])
+            return 1
+        finally:
+            drv.kill()
     drv = Driver()
     ev = Evidence()
     if "input_hex" in rec:
